@@ -86,6 +86,17 @@ impl<'o> Hist<'o> {
 
     #[allow(clippy::too_many_arguments)]
     fn on_alloc_ok(&mut self, id: u64, req: Req, ty: u8, owned: bool, via: usize, h: HInfo, predict: Predict, pre: (St, Vec<(u32, u32, u32)>)) {
+        let is_null = matches!(predict, Predict::Null) && h.cap == 0;
+        self.tmp_recycled = false;
+        self.alloc_policy_checks(id, req, ty, owned, via, h.clone(), predict, pre);
+        if self.failed || is_null {
+            return;
+        }
+        self.alloc_register(id, req, ty, owned, via, h);
+    }
+
+    #[allow(clippy::too_many_arguments)]
+    fn alloc_policy_checks(&mut self, id: u64, req: Req, ty: u8, owned: bool, via: usize, h: HInfo, predict: Predict, pre: (St, Vec<(u32, u32, u32)>)) {
         let kind = match req {
             Req::Bytes(_) => HKind::Bytes,
             Req::Aligned { .. } => HKind::Aligned(ty),
@@ -175,6 +186,7 @@ impl<'o> Hist<'o> {
             }
             Predict::Slow { ref may, .. } => {
                 recycled = true;
+                self.tmp_recycled = true;
                 self.flags.slow_any = true;
                 if self.model.list.len() >= 2 {
                     self.flags.slow_with_2_nodes = true;
@@ -259,6 +271,17 @@ impl<'o> Hist<'o> {
             }
             Predict::Null | Predict::ReadOnly => unreachable!(),
         }
+        self.tmp_recycled = recycled;
+    }
+
+    #[allow(clippy::too_many_arguments)]
+    fn alloc_register(&mut self, id: u64, req: Req, ty: u8, owned: bool, via: usize, h: HInfo) {
+        let kind = match req {
+            Req::Bytes(_) => HKind::Bytes,
+            Req::Aligned { .. } => HKind::Aligned(ty),
+            Req::Typed { .. } => HKind::Typed(ty),
+        };
+        let recycled = self.tmp_recycled;
         // ---- C08 zero fill for byte allocations; register in the shadow map
         let end = h.off as usize + h.cap as usize;
         let memlen = self.runners[0].mem().len();
@@ -563,8 +586,8 @@ impl<'o> Hist<'o> {
             self.viol(&["C17"], &format!("rewind-target:{}", match pos { RewPos::Start(_) => "Start", RewPos::End(_) => "End", RewPos::Current(_) => "Current" }), msg);
             return;
         }
-        if post.0.discarded != pre.0.discarded || post.0.min_seg != pre.0.min_seg || post.0.cap != pre.0.cap || post.1 != pre.1 || self.runners[0].mem() != &mem_pre[..] {
-            // the cursor word itself lives in memory() in the unified layout: mask the header
+        {
+            // the cursor word itself lives in memory() in the unified layout: compare the data area
             let hdr = self.model.data_offset as usize;
             let same_data = self.runners[0].mem()[hdr..] == mem_pre[hdr..];
             if post.0.discarded != pre.0.discarded || post.0.min_seg != pre.0.min_seg || post.0.cap != pre.0.cap || post.1 != pre.1 || !same_data {
